@@ -120,26 +120,14 @@ def specMerge (a b : Config) : Config :=
     | none => (fs.name, get a fs.name)
 
 /-- first documented field on which `r` differs from `spec` -/
-def firstBad (spec r : Config) (skipProtocol : Bool) : Option String :=
-  (table.find? fun fs => (docOf fs).isSome && !(skipProtocol && fs.name == "Protocol") &&
-      !(sameVal (get r fs.name) (get spec fs.name))).map (·.name)
+def firstBad (spec r : Config) : Option String :=
+  (table.find? fun fs => (docOf fs).isSome && !(sameVal (get r fs.name) (get spec fs.name))).map (·.name)
 
-def negProtocol (c : Config) : Bool :=
-  match get c "Protocol" with
-  | .int i => i < 0
-  | _ => false
-
-/-- judge a result against the documented layering; `laters` = the sources merged after the first -/
-def judge (what : String) (spec r : Config) (laters : List Config) : Option (String × String) :=
-  match firstBad spec r true with
+/-- judge a result against the documented layering -/
+def judge (what : String) (spec r : Config) : Option (String × String) :=
+  match firstBad spec r with
   | some f => some ("field-not-layered", s!"{what}: field {f} is {showVal (get r f)}, documented layering gives {showVal (get spec f)}")
-  | none =>
-    match firstBad spec r false with
-    | some f =>
-      if laters.any negProtocol then
-        some ("protocol-negative-ignored", s!"{what}: a later source sets Protocol to a negative value; result has {showVal (get r f)}, documented layering gives {showVal (get spec f)}")
-      else some ("field-not-layered", s!"{what}: field {f} is {showVal (get r f)}, documented layering gives {showVal (get spec f)}")
-    | none => none
+  | none => none
 
 structure DirSpec where
   ents : List DirEnt
@@ -182,7 +170,7 @@ def step (s : Unit) (op : List String) (impl : String) : LineOut Unit :=
           if flag != "ok" then some ("input-mutated", s!"MergeConfig modified its input(s): {flag}")
           else match parseCfg table rs with
             | none => some ("malformed", impl)
-            | some r => judge "merge" (specMerge a b) r [b]
+            | some r => judge "merge" (specMerge a b) r
         | _ => some ("malformed", impl)
       { state := s, model := some (modelMerge a b), monitor := mon }
     | _, _ => { state := s, model := some "bad-op" }
@@ -197,7 +185,7 @@ def step (s : Unit) (op : List String) (impl : String) : LineOut Unit :=
           if ls != rs then some ("not-associative", s!"merge(merge(a,b),c) = {ls} but merge(a,merge(b,c)) = {rs}")
           else match parseCfg table ls with
             | none => some ("malformed", impl)
-            | some lr => judge "assoc" (specMerge (specMerge a b) c) lr [b, c]
+            | some lr => judge "assoc" (specMerge (specMerge a b) c) lr
         | _ => some ("malformed", impl)
       { state := s, model := some (showCfg table l ++ " " ++ showCfg table r), monitor := mon }
     | _, _, _ => { state := s, model := some "bad-op" }
@@ -216,7 +204,7 @@ def step (s : Unit) (op : List String) (impl : String) : LineOut Unit :=
           else match parseCfg table impl with
             | none => some ("malformed", impl)
             | some r =>
-              match firstBad spec r false with
+              match firstBad spec r with
               | some f => some ("fold-mismatch", s!"read: field {f} is {showVal (get r f)}, merging the sources in documented order gives {showVal (get spec f)}")
               | none => none
       { state := s, model := some m, monitor := mon }
